@@ -9,6 +9,12 @@ verus! {
 
 global size_of usize == 8;
 
+// R18: std::cmp::max / min on isize (std, trusted)
+#[verifier::external_body]
+fn verif_max(a: isize, b: isize) -> (r: isize) ensures r == (if a >= b { a } else { b }) { core::cmp::max(a, b) }
+#[verifier::external_body]
+fn verif_min(a: isize, b: isize) -> (r: isize) ensures r == (if a <= b { a } else { b }) { core::cmp::min(a, b) }
+
 // ------------------------------------------------------------------ environment stand-ins (assumed)
 #[verifier::external_body]
 #[verifier::accept_recursive_types(T)]
@@ -143,7 +149,7 @@ impl Value {
 //@struct file=yarel/src/object.rs name=ObjRange
 impl ObjRange {
     //@fn file=yarel/src/object.rs path=ObjRange::make_bounded_range ret=r props=C13,C02
-    //@  rewrite R1
+    //@  rewrite R1 R18
     //@  requires limit >= 0
     //@  ensures r matches Ok((b, e)) ==> 0 <= norm(self.begin as int, limit as int) < limit && 0 <= norm(self.end as int, limit as int) <= limit
     //@  ensures r matches Ok((b, e)) ==> b as int == norm(self.begin as int, limit as int) && e as int == (if norm(self.end as int, limit as int) >= b { norm(self.end as int, limit as int) } else { b as int })
